@@ -85,3 +85,31 @@ func VerifLeftCheats() []string {
 	}
 	return out
 }
+
+// VerifState renders the package-level state that outlives a call: the `optimize` switch, the shift
+// table of floatBits, the float64 format constants and the two error values.
+func VerifState() string {
+	pt := ""
+	for i, v := range powtab {
+		if i > 0 {
+			pt += ","
+		}
+		pt += strconv.Itoa(v)
+	}
+	o := 0
+	if optimize {
+		o = 1
+	}
+	return "opt=" + strconv.Itoa(o) + " powtab=" + pt + " info=" + strconv.Itoa(int(float64info.mantbits)) + ":" +
+		strconv.Itoa(int(float64info.expbits)) + ":" + strconv.Itoa(float64info.bias) +
+		" errs=" + hexs(ErrRange.Error()) + ":" + hexs(ErrSyntax.Error())
+}
+
+func hexs(s string) string {
+	const d = "0123456789abcdef"
+	b := make([]byte, 0, 2*len(s))
+	for i := 0; i < len(s); i++ {
+		b = append(b, d[s[i]>>4], d[s[i]&15])
+	}
+	return string(b)
+}
